@@ -235,4 +235,11 @@ def rule_range_constructors(ctx):
     constructor_table(ctx, "O10.ranges", DECIMAL_RANGE, bound, mode="errors")
 
 
-RULES = [rule_escapes, rule_oserror_stays_oserror, rule_range_constructors]
+def rule_setters(ctx):
+    """The asserts of the DataFormat property setters are discharged by the set_property table (errors only)."""
+    from .c11 import rule_set_property
+
+    rule_set_property(ctx, "O10.setters", mode="errors")
+
+
+RULES = [rule_escapes, rule_oserror_stays_oserror, rule_range_constructors, rule_setters]
